@@ -70,7 +70,7 @@ def run(ctx):
         r.check('Secure:challenge', len(x) == 1 and x[0].value_str() == 'errors::SaslSecureNotSupportedSnafu::fail(errors::SaslSecureNotSupportedSnafu)' and x[0].done == 'return'
                 and not [e for e in notable(x[0].effects) if e.startswith(('self =', 'io_loop::Inner::push'))], site, built=[y.row() for y in x],
                 expected='Secure frame -> SaslSecureNotSupported, nothing sent')
-        x = find(HS + 'Secure(_, _)', (tf('Secure'), 'not Ok(_)'))
+        x = find(HS + 'Secure(_, _)', (tf('Secure'), 'Err(_)'))
         want = [tf('Secure'), 'self = %sTune(self.Secure.0, self.Secure.1)' % HS, PROC + '(self, inner, frame)']
         r.check('Secure:otherwise-tune', len(x) == 1 and notable(x[0].effects) == want and x[0].value_str() == PROC + '(self, inner, frame)', site,
                 built=[notable(y.effects) for y in x], expected=want)
@@ -87,7 +87,7 @@ def run(ctx):
         want = [tf('Close'), 'io_loop::Inner::push_method(inner, 0, %sAMQPMethod::CloseOk(%sCloseOk{}))' % (CONN, CONN), 'io_loop::Inner::seal_writes(inner)',
                 'self = %sServerClosing(%s.Ok.0)' % (HS, tf('Close'))]
         r.check('Open:close', len(x) == 1 and notable(x[0].effects) == want and x[0].value_str() == 'Ok(())', site, built=[notable(y.effects) for y in x], expected=want)
-        x = find(HS + 'Open(_, _)', (tf('Close'), 'not Ok(_)'))
+        x = find(HS + 'Open(_, _)', (tf('Close'), 'Err(_)'))
         want = [tf('Close'), tf('OpenOk'), 'self = %sDone(self.Open.0, self.Open.1, std::vec::Vec::new())' % HS]
         r.check('Open:open-ok', len(x) == 1 and notable(x[0].effects) == want and x[0].value_str() == 'Ok(())', site, built=[notable(y.effects) for y in x], expected=want)
         tries = [e for e in ctx.events(PROC)[0] if e.kind == 'try']
@@ -117,7 +117,7 @@ def run(ctx):
         rows = P.table(ctx, fnp, ['self', 'stream', 'options', 'have_written_to_socket'])
         site = ctx.site(fnp)
         loop = 'io_loop::IoLoop::run_io_loop(self, stream, $m0, io_loop::IoLoop::handle_handshake_event, have_written_to_socket, io_loop::IoLoop::is_handshake_done)'
-        okr = [x for x in rows if x.conds and x.conds[0] == (loop, 'Ok(())')]
+        okr = [x for x in rows if x.conds and x.conds[0] == (loop, 'Ok(_)')]
         err = [x for x in rows if x.conds and x.conds[0] == (loop, 'Err(_)')]
         r.check('starts-in-Start', all('let $m0 = %sStart(options)' % HS in x.effects for x in rows), site, built=[x.effects[:1] for x in rows][:1], expected='state initialised to Start(options)')
         r.check('loop-call', len(okr) == 3 and len(err) == 2, site, built=[x.cond_strs()[:1] for x in rows], expected='run_io_loop(.., handle_handshake_event, .., is_handshake_done) starting in state Start(options)')
@@ -126,7 +126,7 @@ def run(ctx):
         r.eq('ServerClosing', got.get(HS + 'ServerClosing(_)'),
              ('errors::ServerClosedConnectionSnafu::fail(errors::ServerClosedConnectionSnafu{code: $m0.ServerClosing.0.reply_code, message: $m0.ServerClosing.0.reply_text})', None), site)
         e1 = [x for x in err if x.conds[-1][1] == '(%sSecure(_, _), errors::Error::UnexpectedSocketClose)' % HS]
-        e2 = [x for x in err if x.conds[-1][1] == '(_, _)']
+        e2 = [x for x in err if x.conds[-1][1] == '_']
         r.check('socket-closed-after-StartOk', len(e1) == 1 and e1[0].value_str() == 'errors::InvalidCredentialsSnafu::fail(errors::InvalidCredentialsSnafu)', site, built=[x.row() for x in err],
                 expected='(Secure, UnexpectedSocketClose) => InvalidCredentials', why='InvalidCredentials only when the connection is dropped after StartOk without a reply')
         r.check('other-errors-unchanged', len(e2) == 1 and e2[0].value_str() == 'Err(%s.Err.0)' % loop and err.index(e2[0]) > (err.index(e1[0]) if e1 else -1), site, built=[x.row() for x in e2],
@@ -139,10 +139,10 @@ def run(ctx):
         site = ctx.site(fnp)
         SUP = fnp + '::server_supports'
         mech = 'auth::Sasl::mechanism(self.auth)'
-        bad_mech = [x for x in rows if x.conds == [('!%s(start.mechanisms, %s)' % (SUP, mech), True)]]
+        bad_mech = [x for x in rows if x.conds == [('%s(start.mechanisms, %s)' % (SUP, mech), False)]]
         r.check('unsupported-mechanism', len(bad_mech) == 1 and bad_mech[0].value_str() == 'errors::UnsupportedAuthMechanismSnafu::fail(errors::UnsupportedAuthMechanismSnafu{available: start.mechanisms, requested: %s})' % mech,
                 site, built=[x.row() for x in rows][:1])
-        bad_loc = [x for x in rows if len(x.conds) == 2 and x.conds[1] == ('!%s(start.locales, self.locale)' % SUP, True)]
+        bad_loc = [x for x in rows if len(x.conds) == 2 and x.conds[1] == ('%s(start.locales, self.locale)' % SUP, False)]
         r.check('unsupported-locale', len(bad_loc) == 1 and bad_loc[0].value_str() == 'errors::UnsupportedLocaleSnafu::fail(errors::UnsupportedLocaleSnafu{available: start.locales, requested: self.locale})', site,
                 built=[x.row() for x in bad_loc])
         okr = [x for x in rows if x.value_str().startswith('Ok((')]
@@ -166,7 +166,7 @@ def run(ctx):
         r.eq('Auth::mechanism', sorted((x.cond_strs()[0], x.value_str()) for x in rows), [('self ~ auth::Auth::External', '"EXTERNAL"'), ('self ~ auth::Auth::Plain{..}', '"PLAIN"')], ctx.site('<auth::Auth as auth::Sasl>::mechanism'))
         rows = P.table(ctx, '<auth::Auth as auth::Sasl>::response', ['self'])
         r.eq('Auth::response', sorted((x.cond_strs()[0], x.value_str()) for x in rows),
-             [('self ~ auth::Auth::External', '""'), ('self ~ auth::Auth::Plain{username: _, password: _}', 'format!("\\0{}\\0{}", self.username, self.password)')],
+             [('self ~ auth::Auth::External', '""'), ('self ~ auth::Auth::Plain{..}', 'format!("\\0{}\\0{}", self.username, self.password)')],
              ctx.site('<auth::Auth as auth::Sasl>::response'), why='SASL PLAIN: NUL user NUL password')
         ev = ctx.evaluator(0)
         t = ev.run_fn('connection_options::ConnectionOptions::make_open', [('var', 'self', -1)])
@@ -212,7 +212,7 @@ def run(ctx):
         r.check('loop-ok-only-when-done', ok, ctx.site('io_loop::IoLoop::run_io_loop'), built=why)
         rows = P.table(ctx, 'io_loop::IoLoop::wait_for_amqp_handshake', ['ch0_handle', 'join_handle', 'handshake_done_rx'])
         okr = [x for x in rows if x.value_str().startswith('Ok(')]
-        r.check('connection-only-from-result', len(okr) == 1 and okr[0].conds == [('crossbeam_channel::Receiver::recv(handshake_done_rx)', 'Ok((_, _))')] and
+        r.check('connection-only-from-result', len(okr) == 1 and okr[0].conds == [('crossbeam_channel::Receiver::recv(handshake_done_rx)', 'Ok(_)')] and
                 okr[0].value_str() == 'Ok((join_handle, crossbeam_channel::Receiver::recv(handshake_done_rx).Ok.0.1, io_loop::channel_handle::Channel0Handle::new(ch0_handle, crossbeam_channel::Receiver::recv(handshake_done_rx).Ok.0.0)))',
                 ctx.site('io_loop::IoLoop::wait_for_amqp_handshake'), built=[x.row() for x in okr])
         errs = [x for x in rows if not x.value_str().startswith('Ok(') and x.done != 'panic']
